@@ -27,12 +27,12 @@ HORIZON = 2600
 
 
 def bounds(tier):
-    return {"H10": "scenarios {run, stop, stop+start, stop+stop, find(unicast|multicast)+stop, stop+find, stop_announce_service+find, connection_lost, SimpleService helper start+stop%s} x repetitions {0,1,2%s} (3 as well for run/stop) x cyclic {off,1 s} x TTL {3, infinite} x collection timeout {0, 5 ms}; initial delay, request-response delay and every event instant symbolic (events anywhere in 0..3000 ms), delivery iteration symbolic; observed to %d ms after the last event" % (((", two instances", ",4") if tier == "thorough" else ("", "")) + (HORIZON,))}
+    return {"H10": "scenarios {run, stop, stop+start, stop+stop, find(unicast|multicast)+stop, two unicast finds+stop, stop+find, stop_announce_service+find, connection_lost, SimpleService helper start+stop%s} x repetitions {0,1,2%s} (3 as well for run/stop) x cyclic {off,1 s} x TTL {3, infinite} x collection timeout {0, 5 ms}; initial delay, request-response delay and every event instant symbolic (events anywhere in 0..3000 ms), delivery iteration symbolic; observed to %d ms after the last event" % (((", two instances", ",4") if tier == "thorough" else ("", "")) + (HORIZON,))}
 
 
 def cases(tier, seed):
     out = []
-    scen = ["run", "stop", "stop-start", "stop-stop", "finduc-stop", "findmc-stop", "stop-finduc", "stop-findmc", "svcstop-finduc", "lost", "helper"]
+    scen = ["run", "stop", "stop-start", "stop-stop", "finduc-stop", "find2uc-stop", "findmc-stop", "stop-finduc", "stop-findmc", "svcstop-finduc", "lost", "helper"]
     if tier == "thorough":
         scen += ["two-stop-find"]
     reps = [0, 1, 2] + ([4] if tier == "thorough" else [])
@@ -46,9 +46,11 @@ def cases(tier, seed):
                             continue
                         if sc == "two-stop-find" and (r > 1 or ttl != 3):
                             continue
+                        if sc == "find2uc-stop" and (r != 1 or ttl != 3):
+                            continue
                         if tier == "quick" and ttl == TTL_FOREVER and (r == 2 or sc in ("run", "stop-start")):
                             continue
-                        out.append({"h": "H10", "scen": sc, "rep": r, "cyclic": cyc, "ttl": ttl, "collect": col, "_w": 2 + r + 2 * (sc in ("finduc-stop", "findmc-stop", "stop-start"))})
+                        out.append({"h": "H10", "scen": sc, "rep": r, "cyclic": cyc, "ttl": ttl, "collect": col, "_w": 2 + r + 2 * (sc in ("finduc-stop", "find2uc-stop", "findmc-stop", "stop-start"))})
     return out
 
 
@@ -119,10 +121,15 @@ def h10(E, M, case):
         elif scen == "stop-stop":
             sc.at(t2, guarded(ann.stop, "second ServiceAnnouncer.stop"), "e2")
             t_last = t2
-    elif scen in ("finduc-stop", "findmc-stop"):
+    elif scen in ("finduc-stop", "findmc-stop", "find2uc-stop"):
         mc = scen == "findmc-stop"
         sc.at(t1, lambda: prot.datagram_received(find, P, mc), "e1")
         finds.append((t1, mc))
+        if scen == "find2uc-stop":
+            # the same peer asks twice (two answers wait in its send queue)
+            find_b = bytes(wire.sd_message(2, 0xC0, [wire.sd_entry_bytes(wire.T_FIND, 0, 0, 0, 0, SVC[0], 0xFFFF, 0xFF, 3, 0xFFFFFFFF)], []))
+            sc.at(t1, lambda: prot.datagram_received(find_b, P, False), "e1b")
+            finds.append((t1, False))
         sc.at(t2, guarded(ann.stop, "ServiceAnnouncer.stop"), "e2")
         stops.append([t2, None])
         t_last = t2
